@@ -12,6 +12,7 @@ import (
 	"io"
 	"net"
 	"sort"
+	"strings"
 	"sync"
 	"time"
 )
@@ -106,6 +107,9 @@ type Server struct {
 	// Gate, when set, is called before each request is processed (deterministic scheduling); the
 	// function it returns, if any, is called once the request has been executed.
 	Gate func(conn int, e *Entry) func()
+	// FailPrefix, when set: every request on a key with this prefix is refused with FailStatus.
+	FailPrefix string
+	FailStatus uint16
 	// Delay before each response (used by batching tests)
 	closed bool
 }
@@ -149,6 +153,29 @@ func (s *Server) Listen(path string) error {
 		}
 	}()
 	return nil
+}
+
+// ListenTCP listens on a free loopback port and returns its address.
+func (s *Server) ListenTCP() (string, error) {
+	ln, err := net.Listen("tcp", "127.0.0.1:0")
+	if err != nil {
+		return "", err
+	}
+	s.ln = ln
+	s.Path = ln.Addr().String()
+	go func() {
+		for {
+			c, err := ln.Accept()
+			if err != nil {
+				return
+			}
+			s.mu.Lock()
+			s.accepts++
+			s.mu.Unlock()
+			go s.Serve(c)
+		}
+	}()
+	return s.Path, nil
 }
 
 // StopListening closes the listener (existing connections stay open).
@@ -359,7 +386,11 @@ func (s *Server) Serve(c net.Conn) {
 			return
 		}
 		var out []byte
-		if fk != nil && fk.Kind == FaultStatus && h.opcode == OpNoop {
+		if s.FailPrefix != "" && strings.HasPrefix(string(e.Key), s.FailPrefix) {
+			// a key the backend is told to refuse: every request on it is answered with an error status
+			out = errResp(h.opcode, s.FailStatus, h.opaque)
+			e.Resp = fmt.Sprintf("st:%d", s.FailStatus)
+		} else if fk != nil && fk.Kind == FaultStatus && h.opcode == OpNoop {
 			// an error status on the no-op that terminates a quiet batch: a legal frame without a body
 			out = respBytes(h.opcode, fk.Status, h.opaque, nil, nil)
 			e.Resp = fmt.Sprintf("st:%d", fk.Status)
